@@ -37,7 +37,13 @@ def script_messages(frames):
             msgs.append({"type": "websocket.receive", "text": f"t{i}"})
         else:
             msgs.append({"type": "websocket.receive", "bytes": f"b{i}".encode()})
-    msgs.append({"type": "websocket.disconnect", "code": 1001})
+        if i % 2:
+            # the shape some servers always emit: both payload keys, the unused one None ("if missing, equivalent to None")
+            msgs[-1].setdefault("text", None)
+            msgs[-1].setdefault("bytes", None)
+    # close codes: going away (1001) after an odd number of frames, an application-defined one (4000, private use) otherwise,
+    # with the optional reason
+    msgs.append({"type": "websocket.disconnect", "code": 1001} if len(frames) % 2 else {"type": "websocket.disconnect", "code": 4000, "reason": "bye"})
     return msgs
 
 
@@ -141,14 +147,24 @@ class World:
             self.api["accepted"] = True  # the accept event did reach the server
         consumed = self.msgs[before_pos:self.pos]
         frames = [m for m in consumed if m["type"] == "websocket.receive"]
+        want_kind = "text" if op in ("receive_text", "iter_text") else ("bytes" if op in ("receive_bytes", "iter_bytes") else None)
+        payload = lambda m: m["text"] if m.get("text") is not None else m.get("bytes")
+        # a read for the other kind of frame than the one the client sent is the application's mistake; what becomes of that frame
+        # is not part of the claim (the wrapper raises or hands out None, depending on the shape of the server's event)
+        mismatch = want_kind is not None and any(m.get(want_kind) is None for m in frames)
         if out[0] == "raise":
             if fw and not self.faulted_in_op:
                 self.problems.append(f"{op} raised {out[1]} but forwarded {self.forwarded[before_fw:]}")
             self.consumed_by_failed += len(frames)
+            if want_kind is not None and frames and not mismatch and self.api["accepted"] and not self.api["closed"]:
+                self.problems.append(f"{op} raised {out[1]} although the server delivered a {want_kind} frame {payload(frames[0])!r}: consumed and never returned")
         else:
             if op in ("receive_text", "receive_bytes", "iter_text", "iter_bytes") and out[1] != "<end of iteration>":
+                if mismatch:
+                    self.consumed_by_failed += len(frames)
+                    return out
                 self.returned.append(out[1])
-                exp = [m.get("text", m.get("bytes")) for m in frames]
+                exp = [payload(m) for m in frames]
                 if exp != [out[1]]:
                     self.problems.append(f"{op} returned {out[1]!r} but consumed {exp}")
             elif op == "receive":
@@ -156,7 +172,7 @@ class World:
                 if m != (consumed[0] if consumed else None):
                     self.problems.append(f"receive returned {m!r}, server delivered {consumed}")
                 if m and m.get("type") == "websocket.receive":
-                    self.returned.append(m.get("text", m.get("bytes")))
+                    self.returned.append(payload(m))
             elif frames:
                 self.problems.append(f"{op} consumed frames {frames} without returning them")
         return out
@@ -239,7 +255,7 @@ def judge(world, hist):
             probs.append(f"state moved backwards: client {c0}->{c1}, application {a0}->{a1}")
             break
     # frames returned: in script order, once each
-    script_frames = [m.get("text", m.get("bytes")) for m in world.msgs if m["type"] == "websocket.receive"]
+    script_frames = [m["text"] if m.get("text") is not None else m.get("bytes") for m in world.msgs if m["type"] == "websocket.receive"]
     it = iter(script_frames)
     for f in world.returned:
         for s in it:
@@ -606,7 +622,7 @@ def run_shard(desc, tier):
 
 def classify(p):
     for key, name in (("ended like a finished stream", "illegal-call-succeeded"), ("not a websocket application event", "illegal-call-succeeded"), ("succeeded although", "illegal-call-succeeded"), ("succeeded a second time", "illegal-call-succeeded"), ("application_state is", "state-after-close"), ("forwarded sequence illegal", "illegal-forwarded-sequence"), ("but forwarded", "raised-but-forwarded"), ("after websocket.disconnect", "receive-after-disconnect"),
-                      ("moved backwards", "state-backwards"), ("close is idempotent", "close-not-idempotent"), ("returned frames", "frames-order"), ("close events", "close-not-idempotent"), ("consumed", "frame-lost-or-wrong"), ("returned", "frame-lost-or-wrong")):
+                      ("moved backwards", "state-backwards"), ("close is idempotent", "close-not-idempotent"), ("returned frames", "frames-order"), ("close events", "close-not-idempotent"), ("consumed and never returned", "frame-lost-or-wrong"), ("consumed", "frame-lost-or-wrong"), ("returned", "frame-lost-or-wrong")):
         if key in p:
             return name
     return "other"
